@@ -122,12 +122,14 @@ func harnesses(r *fw.Run) []fw.HarnessSpec {
 		{name: "best-switch", updaters: [][]uint32{{1, 2}}, waiters: []uint32{2}, sw: true},
 	}
 	scen = append(scen, scenario{name: "channel-filling", updaters: [][]uint32{{1, 2, 3, 4, 5, 6, 7, 8, 9, 10, 11, 12}}, waiters: []uint32{99}})
+	// more heads than the update channel holds, the waiter wants the last one: no notification may be lost
+	scen = append(scen, scenario{name: "channel-filling-last-head-wanted", updaters: [][]uint32{{1, 2, 3, 4, 5, 6, 7, 8, 9, 10, 11, 12}}, waiters: []uint32{12}})
 	if !r.Quick() {
 		scen = append(scen, scenario{name: "two-waiters-timeout", updaters: [][]uint32{{1, 2, 3}}, waiters: []uint32{9, 8}})
 	}
 	// deviation bound (delay-bounded scheduling: every departure from the deterministic base scheduler,
 	// every non-first ready select case and every timer-first deviation costs one)
-	bounds := map[string]int{"two-updaters-two-waiters": 2, "channel-filling": 2, "two-waiters-timeout": 2}
+	bounds := map[string]int{"two-updaters-two-waiters": 2, "channel-filling": 2, "channel-filling-last-head-wanted": 2, "two-waiters-timeout": 2}
 	for _, modeB := range []bool{false, true} {
 		for _, sc := range scen {
 			modeB, sc := modeB, sc
@@ -252,7 +254,15 @@ func runWaiting(c *enum.Ctx, name string, modeB bool, body func(s *sched.S, p *p
 	sched.G = nil
 	c.Case([]byte(fmt.Sprintf("%s/%d/%d/%d", name, s.States(), s.Steps(), s.Preemptions)), true)
 	c.Sample(map[string]any{"scenario": name, "mode_b": modeB, "scheduling_points": s.Steps(), "distinct_scheduler_states": s.States(), "preemptions": s.Preemptions, "time_jumps": s.TimeJumps})
-	c.Outcome(fmt.Sprintf("waits=%d", len(rec.waits)))
+	{
+		errs := 0
+		for _, w := range rec.waits {
+			if w.err != nil {
+				errs++
+			}
+		}
+		c.Outcome(fmt.Sprintf("waits=%d errors=%d heads=%d", len(rec.waits), errs, len(rec.heads)))
+	}
 	if s.Race != nil {
 		c.Outcome("data-race-observed:" + s.Race.Key)
 		c.Label("observation (not judged by C13): %s", s.Race.Detail)
